@@ -16,6 +16,8 @@ exactly the class predicates of the known findings plus well-formedness of a sin
 import Scalibr.Proofs.OverlayView
 import Scalibr.Proofs.OverlayLoad
 import Scalibr.Model.OverlayImage
+import Scalibr.Proofs.OverlayImage
+import Scalibr.Spec.OverlayRequired
 namespace Scalibr.Overlay
 
 /-- **C04, partial form.** For every image, view `j` and path: when `H` holds for the layers of the view, what the
@@ -48,6 +50,19 @@ theorem C04_loader_partial (layers : List Layer) (j : Nat) (hj : j < layers.leng
     obsOf (((loadCore layers).getD j emptyTree).get q) = obsOf ((specView layers j).get q) := by
   rw [C04_loader_views layers j hj]; exact C04_view_partial layers j h q
 
+/-- **The same for what `image.FromV1Image` is modelled by end to end** (`loadImage`: acceptance verdicts, extraction
+directory, load errors): whenever the load succeeds, chain layer `j` answers every path as the OCI rule does on the
+node-creating entries, under `H`.  (Audit-1: this is the missing `loadImage`/`loadCore` link.  Name cleaning,
+`.wh.` parsing and the size / link rejections — `normEntry`, `classify` — are a pre-pass shared by model and
+specification: the property speaks about tar *entries*, and which headers count as entries of which path is fixed by
+that pre-pass and validated by the correspondence stream only.) -/
+theorem C04_image_partial (limit : Nat) (layers : List (List PEntry)) (c : List Tree) (ds : List (Nat × Disk))
+    (hload : loadImage limit layers = some (c, ds)) (j : Nat) (hj : j < layers.length)
+    (h : H (layers.map effective) j = true) (q : Path) :
+    obsOf ((c.getD j emptyTree).get q) = obsOf ((specView (layers.map effective) j).get q) := by
+  rw [loadImage_chains limit layers c ds hload]
+  exact C04_loader_partial _ j (by simpa using hj) h q
+
 /-! ### whiteout-free images (the fragment of the design probe A.9, now with modes, symlinks and file-over-directory) -/
 
 def noWhiteouts (layers : List Layer) : Bool := layers.all fun l => l.all fun e => !e.wh
@@ -76,7 +91,7 @@ theorem Hfrom_of_noWh : ∀ (ls later : List Layer), (∀ l ∈ ls, ∀ e ∈ l,
 /-- **Whiteout-free images**: every view of every image without whiteout entries whose tars are well formed (no
 duplicate / out-of-order names, nothing below a non-directory) and which does not re-create a replaced directory
 over older children is the overlay of its layers. -/
-theorem C04_view_nowhiteout (layers : List Layer) (j : Nat)
+theorem C04_view_nowhiteout_partial (layers : List Layer) (j : Nat)
     (hnw : ∀ l ∈ layersNewestFirst layers j, ∀ e ∈ l, e.wh = false)
     (h : HnoWh [] (layersNewestFirst layers j) = true) (q : Path) :
     obsOf ((viewOf layers j).get q) = obsOf ((specView layers j).get q) :=
@@ -100,7 +115,7 @@ theorem readDir_congr (U : List Path) (t t' : Tree) (d : Path)
 
 /-- **Directory listings**: `ReadDir(d)` of a view lists exactly the children the specification has at `d`
 (over any finite universe `U` of candidate paths), under `H`. -/
-theorem C04_readdir (layers : List Layer) (j : Nat) (h : H layers j = true) (U : List Path) (d : Path) :
+theorem C04_readdir_partial (layers : List Layer) (j : Nat) (h : H layers j = true) (U : List Path) (d : Path) :
     readDir U (viewOf layers j) d = readDir U (specView layers j) d :=
   readDir_congr U _ _ d (C04_view_partial layers j h)
 
@@ -130,15 +145,23 @@ theorem walk_congr (U : List Path) (t t' : Tree) (h : ∀ c, obsOf (t.get c) = o
     rw [walkStep_obs (walk U t f), walkStep_obs (walk U t' f), h c, ih]
 
 /-- **Tree walks**: `fs.WalkDir` over a view visits exactly the paths it visits over the specification. -/
-theorem C04_walk (layers : List Layer) (j : Nat) (h : H layers j = true) (U : List Path) (f : Nat) (d : Path) :
+theorem C04_walk_partial (layers : List Layer) (j : Nat) (h : H layers j = true) (U : List Path) (f : Nat) (d : Path) :
     walk U (viewOf layers j) f d = walk U (specView layers j) f d :=
   walk_congr U _ _ (C04_view_partial layers j h) f d
 
-/-! ### the requirer (final view) -/
+/-! ### the requirer (final view)
+
+The clause "restriction to required files changes nothing except that non-required files are absent" (`specRequired`)
+is FALSE for the unchanged code: `pathtree.Remove` also deletes every directory of depth ≥ 2 that the removal leaves
+without children (`C04_required_fails_dirs`, known finding C04/requirer-prunes-emptied-directories), and the backing
+files of the removed nodes are deleted although earlier views still list them.  What does hold is stated for files
+and symlinks (`C04_required_files_partial`) and as "nothing is invented or altered" (`C04_required_subset`).
+`pruneFinal` takes the universe `U` of candidate paths because the trie is modelled by its valued nodes: it is the
+code's behaviour when `U` contains every path of the tree (the driver passes every path mentioned by any entry). -/
 
 /-- **Restriction to required files**: in the pruned final view a (non-whiteout) file or symlink is kept exactly when
 it is required or the target of a required symlink; nothing else about it changes. -/
-theorem C04_required_files (U : List Path) (req : Path → Bool) (depth : Nat) (t : Tree) (q : Path) (n : Node)
+theorem C04_required_files_partial (U : List Path) (req : Path → Bool) (depth : Nat) (t : Tree) (q : Path) (n : Node)
     (hn : t.get q = some n) (hk : n.kind ≠ .dir) (hw : n.wh = false) :
     (pruneFinal U req depth t).get q =
       if req q || (neededSet U t req depth).contains q then some n else none := by
@@ -158,6 +181,17 @@ theorem C04_required_subset (U : List Path) (req : Path → Bool) (depth : Nat) 
   split at h
   · cases h
   · exact h
+
+/-- the requirer clause fails: with nothing required, `a/b` (emptied by the removal of `a/b/c`) disappears from the final
+view although only non-required FILES may go; `a` (depth 1) stays -/
+def exReqU : List Path := [[], ["a"], ["a","b"], ["a","b","c"]]
+theorem C04_required_fails_dirs :
+    let t := viewOf [[⟨["a"], .dir, false, 0o755, 0, 0, []⟩, ⟨["a","b"], .dir, false, 0o755, 0, 0, []⟩,
+                      ⟨["a","b","c"], .file, false, 0o644, 1, 1, []⟩]] 0
+    obsOf ((pruneFinal exReqU (fun _ => false) 6 t).get ["a","b"]) = .absent ∧
+    obsOf ((specRequired exReqU (fun _ => false) 6 t).get ["a","b"]) = .dir 0o755 ∧
+    obsOf ((pruneFinal exReqU (fun _ => false) 6 t).get ["a"]) = .dir 0o755 ∧
+    obsOf ((pruneFinal exReqU (fun _ => false) 6 t).get ["a","b","c"]) = .absent := by decide
 
 /-! ### the full statement fails on the unchanged code: one witness per class (replayed on the implementation from
 `corpus/C04/`) -/
